@@ -11,7 +11,7 @@
    closed-form quadratic root (TT fractions) are ORACLES: their answer is an argument [c] of the
    model, its defining equation is evaluated on the answer by [tucker_residual] / [tt_residual]. *)
 From Coq Require Import List Arith ZArith QArith Qround Bool Lia.
-From TLV Require Import Base.Shape Base.Tensor.
+From TLV Require Import Base.Shape Base.PyList Base.Tensor.
 Import ListNotations.
 Local Open Scope nat_scope.
 
@@ -216,6 +216,34 @@ Definition tucker (shape : list nat) (spec : rspec) (c : Q) (random_init : bool)
               else map (fun p => Nat.min (snd p) (fst p)) (combine shape rank) in
   Ok (cols :: map (fun p => [fst p; snd p]) (combine shape cols))).
 
+Definition memb (x : nat) (l : list nat) : bool := existsb (Nat.eqb x) l.
+(* partial_tucker on the listed modes (rank: one entry per LISTED mode, not validated): factor j is I_m x min(rank_j, I_m) for m = modes_j,
+   the core keeps the full size on the other modes *)
+Definition partial_tucker (shape : list nat) (rank modes : list nat) : res (list (list nat)) :=
+  if negb (length rank =? length modes) then Err
+  else if negb (forallb (fun m => m <? length shape) modes) then Err
+  else
+    let cols := map (fun p => Nat.min (snd p) (nth (fst p) shape 0)) (combine modes rank) in
+    let core := fold_left (fun sh p => set_nth (fst p) (snd p) sh) (combine modes cols) shape in
+    Ok (core :: map (fun p => [nth (fst p) shape 0; snd p]) (combine modes cols)).
+(* tucker(fixed_factors=fixed, init=(core, factors) with factor m of shape I_m x rank_m), as the code is: the full per-mode rank
+   list is handed to partial_tucker together with the non-fixed modes, which indexes it by POSITION: updated mode m gets
+   rank[(number of non-fixed modes below m)] instead of rank[m] *)
+Definition pos_nonfixed (fixed : list nat) (m : nat) : nat := length (filter (fun i => negb (memb i fixed)) (seq 0 m)).
+Definition tucker_fixed_cols (aligned : bool) (shape rank fixed : list nat) : list nat :=
+  map (fun m => if memb m fixed then nth m rank 0
+                else Nat.min (nth (if aligned then m else pos_nonfixed fixed m) rank 0) (nth m shape 0)) (seq 0 (length shape)).
+Definition all_modes_fixed (shape fixed : list nat) : bool := forallb (fun m => memb m fixed) (seq 0 (length shape)).
+Definition tucker_fixed (shape rank fixed : list nat) : res (list (list nat)) :=
+  if negb (length rank =? length shape) then Err
+  else let cols := tucker_fixed_cols false shape rank fixed in
+  Ok (cols :: map (fun p => [fst p; snd p]) (combine shape cols)).
+(* what the property asks for (and the candidate repair build/fix_candidates/C08_tucker_fixed_factors_rank.diff does) *)
+Definition tucker_fixed_intended (shape rank fixed : list nat) : res (list (list nat)) :=
+  if negb (length rank =? length shape) then Err
+  else let cols := tucker_fixed_cols true shape rank fixed in
+  Ok (cols :: map (fun p => [fst p; snd p]) (combine shape cols)).
+
 (* ------------------------------------------------------------------ CP family, PARAFAC2, TR-ALS, CMTF *)
 Definition cp_shapes (shape : list nat) (r : nat) : list (list nat) := [r] :: map (fun s => [s; r]) shape.
 Definition parafac (shape : list nat) (spec : rspec) : res (list (list nat)) :=
@@ -356,7 +384,6 @@ End Skeleton2.
 Inductive ev := EvU (mode : nat) | EvN.
 Inductive driver := Parafac | NnMu | NnHals.
 Definition is_nn (d : driver) : bool := match d with Parafac => false | _ => true end.
-Definition memb (x : nat) (l : list nat) : bool := existsb (Nat.eqb x) l.
 (* the modes that are updated: parafac / non_negative_parafac refuse to fix the last mode, HALS accepts it *)
 Definition modes_list (d : driver) (n_modes : nat) (fixed : list nat) : list nat :=
   let fixed' := match d with NnHals => fixed | _ => filter (fun m => negb (m =? n_modes - 1)) fixed end in
